@@ -450,3 +450,48 @@ def canon_uids(obj, table=None):
         return x
 
     return walk(obj)
+
+
+DIGEST_FIELDS = ("out", "insts", "index", "actions", "gctx")
+
+
+def uid_order(obj, table):
+    """Append to `table` (a list) the uids of `obj` in depth-first order of first appearance (same walk as the Lean driver)."""
+    if isinstance(obj, str):
+        for u in UID_RE.findall(obj):
+            if u not in table:
+                table.append(u)
+    elif isinstance(obj, (list, tuple)):
+        for y in obj:
+            uid_order(y, table)
+    elif isinstance(obj, dict):
+        for k, v in obj.items():
+            uid_order(k, table)
+            uid_order(v, table)
+    return table
+
+
+def digest_uid_order(d, table):
+    for k in DIGEST_FIELDS:
+        uid_order(d.get(k), table)
+    return table
+
+
+def to_refs(obj, table):
+    """Replace the uids of `obj` by `@@n@@` references into `table`."""
+    idx = {u: n for n, u in enumerate(table)}
+
+    def sub(m):
+        u = m.group(0)
+        return f"@@{idx[u]}@@" if u in idx else u
+
+    def walk(x):
+        if isinstance(x, str):
+            return UID_RE.sub(sub, x)
+        if isinstance(x, list):
+            return [walk(y) for y in x]
+        if isinstance(x, dict):
+            return {walk(k): walk(v) for k, v in x.items()}
+        return x
+
+    return walk(obj)
